@@ -434,7 +434,8 @@ class C08(core.Check):
         'effect:mute', 'effect:include', 'effect:origin', 'effect:zone-switch', 'starts-in-named-zone', 'effect:unmute-inside-branch-while-muted', 'if:bare-literal', 'if:bare-symbol', 'if:bare-negative', 'if:text-comparison', 'if:op==', 'if:op!=',
         'if:op>', 'if:op>=', 'if:op<', 'if:op<=', 'ctx:unsel:nested-in-unselected', 'ctx:unsel:earlier-branch-taken',
         'ctx:unsel:condition-false', 'numeric-vs-text-disagree', 'stray:else', 'stray:elif', 'stray:endif', 'stray:in-included-file', 'same-condition-text-before-and-after-define',
-        'source:cli', 'source:isa', 'condition:shift-operator', 'condition:alias-symbol-seen-before-its-target-is-defined']}
+        'source:cli', 'source:isa', 'condition:shift-operator', 'condition:alias-symbol-seen-before-its-target-is-defined',
+        'uncompiled-label-or-origin-between-a-local-label-and-its-use']}
 
     def finish(self, g, rng, extra_tags=()):
         items = g.items
@@ -588,6 +589,19 @@ class C08(core.Check):
                                      'argv': ['compile', '-c', fn0, 'p.asm', '-o', 'out.bin'], 'probes': ['steps', 'cond'], 'step_limit': 500000}],
                            'meta': {'model': {'kind': 'ACCEPT', 'image': bytes([3 if truth else 4, v_ + 1]).hex()}, 'markers': {}},
                            'tags': ['condition:alias-symbol-seen-before-its-target-is-defined' if mention else 'condition:alias-symbol', 'expect:ACCEPT']}
+        # a label in a branch that is not compiled defines nothing and bounds nothing: a local label defined in front of the
+        # block is still in reach behind it
+        for opener, closer in (('#if 0', '#endif'), ('#ifdef C08_NEVER', '#endif'), ('#if 1\n.byte $0F\n#else', '#endif'),
+                               ('#if 0\n#if 1', '#endif\n#endif'), ('#if 0\n.byte 9\n#elif 0', '#endif')):
+            for dead in ('dead_glob:', '_dead_file:', 'dead_glob: .byte 9', 'dead_glob:\n.dead_loc:\n.byte 9', '.org $300', '.memzone GLOBAL'):
+                live_extra = [0x0F] if '.byte $0F' in opener else []
+                for use in ('.2byte .c08_loc', 'jmp .c08_loc'):
+                    src = ['c08_host:', '.byte 1', '.c08_loc:', '.byte 2', opener, dead, closer, use, '.byte 5']
+                    ub = [0x00, 0x01] if use.startswith('.2byte') else [0x4C, 0x00, 0x01]
+                    yield {'runs': [{'files': {fn0: text0, 'p.asm': '\n'.join(src) + '\n'},
+                                     'argv': ['compile', '-c', fn0, 'p.asm', '-o', 'out.bin'], 'probes': ['steps', 'cond'], 'step_limit': 500000}],
+                           'meta': {'model': {'kind': 'ACCEPT', 'image': bytes([1, 2] + live_extra + ub + [5]).hex()}, 'markers': {}},
+                           'tags': ['uncompiled-label-or-origin-between-a-local-label-and-its-use', 'expect:ACCEPT']}
         if tier == 'thorough':
             yield from self.sweep()
 
